@@ -2,6 +2,13 @@
 """prints the prompt given to a mutation sub-agent for property <id> working in worktree <dir> (nothing from /verif but the property text)"""
 import json, sys
 pid, wt = sys.argv[1].upper(), sys.argv[2]
+wave = sys.argv[3] if len(sys.argv) > 3 else ""
+import glob, os
+known = []
+for mp in sorted(glob.glob(f"/verif/seeded/{pid.lower()}_*/meta.json")):
+    m = json.load(open(mp))
+    if m.get("summary"):
+        known.append("- " + m["summary"][:300])
 p = [json.loads(l) for l in open('/verif/properties.jsonl') if json.loads(l)['id'] == pid][0]
 print(f"""You are helping to evaluate a verification tool for the open-source project elastic/rally (Elastic's Python benchmarking framework). Your job is to produce TWO independent, realistic, subtle bugs ("seeded changes") in the rally source code that each BREAK the following semantic property while the project still imports fine and its existing unit-test suite still passes.
 
@@ -20,11 +27,12 @@ WHAT A GOOD SEEDED CHANGE LOOKS LIKE
 - It must break the PROPERTY above (as a user would observe it), not just some unrelated behaviour.
 - It must need something SPECIFIC to manifest: a particular interleaving/ordering of events, a fault at a particular point, a multi-step sequence of operations, an unusual-but-legal input, or two cooperating sites that each look fine alone. Changes that ordinary use or the simplest example would expose at once are NOT wanted. Changes that just raise an exception on every call are NOT wanted.
 - The two changes must be independent of each other (different mechanism / different code site), each produced against the clean tree.
+{("- These changes are ALREADY KNOWN from an earlier round - produce something DIFFERENT (another code site or another mechanism, ideally in a different function or file among those relevant to the property):" + chr(10) + chr(10).join(known)) if known else ""}
 
-DELIVERABLES - create the directory {wt}/_seed/ and put in it, for each change k in (1,2):
-  {wt}/_seed/{pid.lower()}_k/patch.diff   - output of `git diff` for the change alone (relative to the clean HEAD; must apply with `git apply` at the repository root)
-  {wt}/_seed/{pid.lower()}_k/demo_test.py - a self-contained pytest file (or plain python script with asserts, exit code != 0 on failure) that FAILS with the change applied and PASSES on the clean tree. It should exercise the real rally code (import esrally...), and show the property violation at the level of observable behaviour. Mocks/fakes for Elasticsearch, clocks, actors etc. are fine.
-  {wt}/_seed/{pid.lower()}_k/meta.json    - {{"property": "{pid}", "summary": "<one sentence: what was changed>", "needs": "<what specific input/interleaving/fault/sequence is needed for it to manifest>", "files": ["..."], "demo_cmd": "<exact command to run the demo>", "suite_result_with_change": "<tail line of the pytest run>"}}
+DELIVERABLES - create the directory {wt}/_seed/ and put in it, for each change k in (1,2) (the directory names below are literally {pid.lower()}_{wave}1 and {pid.lower()}_{wave}2):
+  {wt}/_seed/{pid.lower()}_{wave}k/patch.diff   - output of `git diff` for the change alone (relative to the clean HEAD; must apply with `git apply` at the repository root)
+  {wt}/_seed/{pid.lower()}_{wave}k/demo_test.py - a self-contained pytest file (or plain python script with asserts, exit code != 0 on failure) that FAILS with the change applied and PASSES on the clean tree. It should exercise the real rally code (import esrally...), and show the property violation at the level of observable behaviour. Mocks/fakes for Elasticsearch, clocks, actors etc. are fine.
+  {wt}/_seed/{pid.lower()}_{wave}k/meta.json    - {{"property": "{pid}", "summary": "<one sentence: what was changed>", "needs": "<what specific input/interleaving/fault/sequence is needed for it to manifest>", "files": ["..."], "demo_cmd": "<exact command to run the demo>", "suite_result_with_change": "<tail line of the pytest run>"}}
 Procedure for each change: (a) read the code; (b) make the edit; (c) run the full suite as above and confirm 1268 passed / 1 failed / 3 errors; if any formerly passing test fails, pick a different change; (d) write the demo and confirm it fails with the change; (e) save `git diff > patch.diff`; (f) `git stash` or `git checkout -- esrally` to get back to the clean tree and confirm the demo passes there; (g) repeat for change 2. Leave the worktree clean (no modifications to tracked files) at the end, with only the untracked _seed/ directory added.
 
 In your final answer, give for each change: the summary, what it needs to manifest, and confirmation of the three facts (suite identical, demo fails with change, demo passes without). Be concise.""")
